@@ -1,6 +1,7 @@
 import LoraVerif.Lemmas.PhyTieA
 import LoraVerif.Gen.PhyEnc1262
 import LoraVerif.Gen.PhyEnc1261
+import LoraVerif.Lemmas.PhyArithLemmas
 /-!
 # C13, tie A for the SX126x command encoders (builder O)
 
@@ -124,5 +125,164 @@ theorem tieA_set_packet_params (self : Gen.PhyEnc1262.Sx126x) (p : PacketParams)
     phy_tie [wrap_and255_nat, wrap_and255_div256, Int.reducePow, Int.reduceToNat, Nat.reducePow] [Rt.b2i, b2u, hi8, lo8, Nat.mod_eq_of_lt hlen, ofNat_toNat_mod, ofNat_toNat_div256])
 
 #print axioms tieA_set_packet_params
+
+/-! ## SetPaConfig / SetTxParams: the PA tables and their lookup -/
+
+open Gen.PhyArith in
+/-- what the encoders use of a generated lookup result: paDutyCycle, hpMax, the SetTxParams power byte -/
+def paViewG : Option (Gen.PhyArith.PaTableEntry × Int) → Option (Int × Int × Int)
+  | some (e, b) => some (e.pa_duty_cycle, e.hp_max, b)
+  | none => none
+/-- the same of the hand model's lookup -/
+def paViewM : Option (Sx126x.PaEntry × UInt8) → Option (Int × Int × Int)
+  | some (e, b) => some (e.duty.toNat, e.hpMax.toNat, b.toNat)
+  | none => none
+
+theorem model_lookup_clamp (t : Sx126x.PaTable) (last : Sx126x.PaEntry) (hl : t.entries.getLast? = some last) (req : Int) :
+    t.lookup req = t.lookup (Spec.Semtech.clampI t.minDbm last.maxDbm req) := by
+  have h : max t.minDbm (min last.maxDbm (Spec.Semtech.clampI t.minDbm last.maxDbm req)) = max t.minDbm (min last.maxDbm req) := by
+    unfold Spec.Semtech.clampI; omega
+  unfold Sx126x.PaTable.lookup
+  rw [hl]
+  simp only [h]
+theorem model_lookup_clamp_1262 (req : Int) :
+    Sx126x.sx1262Table.lookup req = Sx126x.sx1262Table.lookup (Spec.Semtech.clampI (-9) 22 req) :=
+  model_lookup_clamp Sx126x.sx1262Table ⟨22, 0x04, 0x07, 22⟩ rfl req
+theorem model_lookup_clamp_1261 (req : Int) :
+    Sx126x.sx1261Table.lookup req = Sx126x.sx1261Table.lookup (Spec.Semtech.clampI (-17) 15 req) :=
+  model_lookup_clamp Sx126x.sx1261Table ⟨15, 0x06, 0x00, 14⟩ rfl req
+
+/-- the hand-copied SX1262 table and lookup of the model give, for EVERY requested power, the row and
+power byte of the regenerated `SX1262_PA_TABLE` / `PaTable::lookup` -/
+theorem lookup_tie_1262 (req : Int) :
+    paViewG (Gen.PhyArith.SX1262_PA_TABLE.lookup req) = paViewM (Sx126x.sx1262Table.lookup req) := by
+  rw [Gen.PhyArith.lookup_clamp _ req 22 rfl, model_lookup_clamp_1262, show Gen.PhyArith.SX1262_PA_TABLE.min_dbm = -9 from rfl]
+  exact forall_int_range (-9) 32 (fun k => paViewG (Gen.PhyArith.SX1262_PA_TABLE.lookup k) = paViewM (Sx126x.sx1262Table.lookup k))
+    (by decide +kernel) _ (by unfold Spec.Semtech.clampI; omega) (by unfold Spec.Semtech.clampI; omega)
+theorem lookup_tie_1261 (req : Int) :
+    paViewG (Gen.PhyArith.SX1261_PA_TABLE.lookup req) = paViewM (Sx126x.sx1261Table.lookup req) := by
+  rw [Gen.PhyArith.lookup_clamp _ req 15 rfl, model_lookup_clamp_1261, show Gen.PhyArith.SX1261_PA_TABLE.min_dbm = -17 from rfl]
+  exact forall_int_range (-17) 33 (fun k => paViewG (Gen.PhyArith.SX1261_PA_TABLE.lookup k) = paViewM (Sx126x.sx1261Table.lookup k))
+    (by decide +kernel) _ (by unfold Spec.Semtech.clampI; omega) (by unfold Spec.Semtech.clampI; omega)
+
+#print axioms lookup_tie_1262
+#print axioms lookup_tie_1261
+
+/-- `Sx126x::<Sx1262>::set_tx_power_and_ramp_time` (with `set_pa_config`, the variant's `get_device_sel` /
+`pa_table`, `PaTable::lookup` and the table constant, all from the current source) IS the model's
+`setTxPowerAndRampTime` on an SX1262: the TxClampCfg read-modify-write (bits 4..1 set), SetPaConfig with the
+row of the table and device 0, SetTxParams with the power byte and the ramp code — every requested
+power, ramp choice, chip and prefix. -/
+theorem tieA_set_tx_power_and_ramp_time_1262 (self : Gen.PhyEnc1262.Sx126x) (cfg : Sx126x.Config) (hc : cfg.chip = .sx1262)
+    (power : Int) (mp : Option Sx126x.ModulationParams) (prep : Bool) (c : Chip) (log : List Rt.Phy.Ev) :
+    view id (Gen.PhyEnc1262.Sx126x.set_tx_power_and_ramp_time self power (mp.map genMod) prep chipDev c log)
+      = denote (Sx126x.setTxPowerAndRampTime cfg power (mp.map (·.freq)) prep) c log := by
+  obtain ⟨chip, tcxo, dcdc, rxb⟩ := cfg
+  simp only at hc; subst hc
+  have ht := lookup_tie_1262 power
+  simp only [Gen.PhyEnc1262.Sx126x.set_tx_power_and_ramp_time, Sx126x.setTxPowerAndRampTime, Sx126x.Variant.highPower,
+    Sx126x.Variant.paTable, Sx126x.Variant.deviceSel, Sx126x.setPaConfig]
+  gen_unfold_helpers_PhyEnc1262
+  cases hg : Gen.PhyArith.SX1262_PA_TABLE.lookup power with
+  | none =>
+    cases hm : Sx126x.sx1262Table.lookup power with
+    | none => cases prep <;> phy_tie [if_true] [if_true]
+    | some r => rw [hg, hm] at ht; simp [paViewG, paViewM] at ht
+  | some rg =>
+    cases hm : Sx126x.sx1262Table.lookup power with
+    | none => rw [hg, hm] at ht; simp [paViewG, paViewM] at ht
+    | some rm =>
+      obtain ⟨e, b⟩ := rg
+      obtain ⟨e', b'⟩ := rm
+      rw [hg, hm] at ht
+      simp only [paViewG, paViewM, Option.some.injEq, Prod.mk.injEq] at ht
+      obtain ⟨h1, h2, h3⟩ := ht
+      cases prep <;> phy_tie [h1, h2, h3] [RampTime.value, RampTime.toInt, Gen.PhyEnc1262.DeviceSel.toInt]
+
+#print axioms tieA_set_tx_power_and_ramp_time_1262
+
+/-- the same for the SX1261 (unit `Gen.PhyEnc1261`, the driver instantiated at `Sx1261`): the refusal of
++15 dBm and more below 400 MHz (`Err(InvalidOutputPowerForFrequency)` before any request; no refusal
+when the channel is not given), no TxClampCfg access, SetPaConfig with the row of `SX1261_PA_TABLE` and
+device 1, SetTxParams.  Stated from the generated side: for every generated parameter record (of
+which only the frequency, a `u32`, is read). -/
+theorem tieA_set_tx_power_and_ramp_time_1261 (self : Gen.PhyEnc1261.Sx126x) (cfg : Sx126x.Config) (hc : cfg.chip = .sx1261)
+    (power : Int) (mp : Option Gen.PhyEnc1261.ModulationParams) (hfreq : ∀ g, mp = some g → 0 ≤ g.frequency_in_hz)
+    (prep : Bool) (c : Chip) (log : List Rt.Phy.Ev) :
+    view id (Gen.PhyEnc1261.Sx126x.set_tx_power_and_ramp_time self power mp prep chipDev c log)
+      = denote (Sx126x.setTxPowerAndRampTime cfg power (mp.map (fun g => g.frequency_in_hz.toNat)) prep) c log := by
+  obtain ⟨chip, tcxo, dcdc, rxb⟩ := cfg
+  simp only at hc; subst hc
+  have ht := lookup_tie_1261 power
+  simp only [Gen.PhyEnc1261.Sx126x.set_tx_power_and_ramp_time, Sx126x.setTxPowerAndRampTime, Sx126x.Variant.highPower,
+    Sx126x.Variant.paTable, Sx126x.Variant.deviceSel, Sx126x.setPaConfig]
+  gen_unfold_helpers_PhyEnc1261
+  cases mp with
+  | some m =>
+    have h0 := hfreq m rfl
+    obtain ⟨sf, bw, cr, ldro, f⟩ := m
+    simp only at h0
+    simp only [Option.map_some]
+    by_cases hp : power ≥ 15
+    · by_cases hf : f.toNat < 400000000
+      · have e1 : decide (power ≥ 15) = true := decide_eq_true hp
+        have e2 : decide (f < 400000000) = true := decide_eq_true (by omega)
+        simp only [e1, e2, if_pos (And.intro hp hf)]
+        cases prep <;> phy_tie [if_true] [if_true]
+      · have e1 : decide (power ≥ 15) = true := decide_eq_true hp
+        have e2 : decide (f < 400000000) = false := decide_eq_false (by omega)
+        simp only [e1, e2, if_neg (fun h : power ≥ 15 ∧ f.toNat < 400000000 => hf h.2)]
+        cases hg : Gen.PhyArith.SX1261_PA_TABLE.lookup power with
+        | none =>
+          cases hm : Sx126x.sx1261Table.lookup power with
+          | none => cases prep <;> phy_tie [if_true] [if_true]
+          | some r => rw [hg, hm] at ht; simp [paViewG, paViewM] at ht
+        | some rg =>
+          cases hm : Sx126x.sx1261Table.lookup power with
+          | none => rw [hg, hm] at ht; simp [paViewG, paViewM] at ht
+          | some rm =>
+            obtain ⟨e, b⟩ := rg
+            obtain ⟨e', b'⟩ := rm
+            rw [hg, hm] at ht
+            simp only [paViewG, paViewM, Option.some.injEq, Prod.mk.injEq] at ht
+            obtain ⟨h1, h2, h3⟩ := ht
+            cases prep <;> phy_tie [h1, h2, h3] [RampTime.value, RampTime.toInt, Gen.PhyEnc1261.DeviceSel.toInt]
+    · have e1 : decide (power ≥ 15) = false := decide_eq_false hp
+      simp only [e1, if_neg (fun h : power ≥ 15 ∧ f.toNat < 400000000 => hp h.1)]
+      cases hg : Gen.PhyArith.SX1261_PA_TABLE.lookup power with
+      | none =>
+        cases hm : Sx126x.sx1261Table.lookup power with
+        | none => cases prep <;> phy_tie [if_true] [if_true]
+        | some r => rw [hg, hm] at ht; simp [paViewG, paViewM] at ht
+      | some rg =>
+        cases hm : Sx126x.sx1261Table.lookup power with
+        | none => rw [hg, hm] at ht; simp [paViewG, paViewM] at ht
+        | some rm =>
+          obtain ⟨e, b⟩ := rg
+          obtain ⟨e', b'⟩ := rm
+          rw [hg, hm] at ht
+          simp only [paViewG, paViewM, Option.some.injEq, Prod.mk.injEq] at ht
+          obtain ⟨h1, h2, h3⟩ := ht
+          cases prep <;> phy_tie [h1, h2, h3] [RampTime.value, RampTime.toInt, Gen.PhyEnc1261.DeviceSel.toInt]
+  | none =>
+    simp only [Option.map_none]
+    cases hg : Gen.PhyArith.SX1261_PA_TABLE.lookup power with
+    | none =>
+      cases hm : Sx126x.sx1261Table.lookup power with
+      | none => cases prep <;> by_cases hp : power ≥ 15 <;> phy_tie [hp, decide_true, decide_false] [if_true]
+      | some r => rw [hg, hm] at ht; simp [paViewG, paViewM] at ht
+    | some rg =>
+      cases hm : Sx126x.sx1261Table.lookup power with
+      | none => rw [hg, hm] at ht; simp [paViewG, paViewM] at ht
+      | some rm =>
+        obtain ⟨e, b⟩ := rg
+        obtain ⟨e', b'⟩ := rm
+        rw [hg, hm] at ht
+        simp only [paViewG, paViewM, Option.some.injEq, Prod.mk.injEq] at ht
+        obtain ⟨h1, h2, h3⟩ := ht
+        cases prep <;> by_cases hp : power ≥ 15 <;> phy_tie [h1, h2, h3, hp, decide_true, decide_false]
+          [RampTime.value, RampTime.toInt, Gen.PhyEnc1261.DeviceSel.toInt]
+
+#print axioms tieA_set_tx_power_and_ramp_time_1261
 
 end C13
